@@ -1,5 +1,5 @@
 (* Proofs about the group model: group_path is total on well-formed tables and returns the deepest common
-   enclosing group; connect_interval never crashes and yields (depth src, depth common, tiers). *)
+   enclosing group; connect_interval never crashes and yields (gdepth src, gdepth common, tiers). *)
 From Coq Require Import ZArith List Bool Arith Lia.
 Import ListNotations.
 From MV Require Import Time.Spec Static.Groups.
@@ -81,9 +81,9 @@ Proof.
   pose proof (parent_lt _ _ Hg E). apply (IH p ltac:(lia) ltac:(lia) c Hc b Hb).
 Qed.
 Lemma depth_unfold g : (g < length gt)%nat ->
-  depth gt g = S (match parent gt g with Some p => depth gt p | None => 0 end).
-Proof. intros Hg. unfold depth. rewrite gchain_unfold by exact Hg. destruct (parent gt g); reflexivity. Qed.
-Lemma depth_pos g : (g < length gt)%nat -> (1 <= depth gt g)%nat.
+  gdepth gt g = S (match parent gt g with Some p => gdepth gt p | None => 0 end).
+Proof. intros Hg. unfold gdepth. rewrite gchain_unfold by exact Hg. destruct (parent gt g); reflexivity. Qed.
+Lemma depth_pos g : (g < length gt)%nat -> (1 <= gdepth gt g)%nat.
 Proof. intros Hg. rewrite depth_unfold by exact Hg. lia. Qed.
 
 Lemma index_of_spec x l a : index_of x l = Some a -> nth_error l a = Some x.
@@ -114,9 +114,9 @@ Proof.
     pose proof (parent_lt _ _ Hg E). apply IH; [lia|lia|exact H].
 Qed.
 Lemma depth_of_nth g a c : (g < length gt)%nat -> nth_error (gchain gt g) a = Some c ->
-  (depth gt g - a = depth gt c)%nat /\ (a < depth gt g)%nat.
+  (gdepth gt g - a = gdepth gt c)%nat /\ (a < gdepth gt g)%nat.
 Proof.
-  intros Hg H. destruct (gchain_suffix g Hg a c H) as [S _]. unfold depth. rewrite <- S, skipn_length.
+  intros Hg H. destruct (gchain_suffix g Hg a c H) as [S _]. unfold gdepth. rewrite <- S, skipn_length.
   split; [reflexivity|]. apply nth_error_Some. congruence.
 Qed.
 
@@ -163,7 +163,7 @@ Theorem group_path_lca s d a dd c : (s < length gt)%nat -> (d < length gt)%nat -
   group_path gt s d = Some (a, dd, c) ->
   In c (gchain gt s) /\ In c (gchain gt d) /\
   (forall b, In b (gchain gt s) -> In b (gchain gt d) -> In b (gchain gt c)) /\
-  (depth gt s - a = depth gt c)%nat /\ (depth gt d - dd = depth gt c)%nat /\ (c < length gt)%nat.
+  (gdepth gt s - a = gdepth gt c)%nat /\ (gdepth gt d - dd = gdepth gt c)%nat /\ (c < length gt)%nat.
 Proof.
   intros Hs Hd G. destruct (group_path_total s d Hs Hd) as (a' & dd' & c' & G' & N1 & N2 & N3).
   rewrite G in G'. injection G' as <- <- <-.
